@@ -8,6 +8,9 @@ package main
 // handler: the instate upgrade goes through).
 
 import (
+	spendingtypes "github.com/KiraCore/sekai/x/spending/types"
+	collectiveskeeper "github.com/KiraCore/sekai/x/collectives/keeper"
+	colltypes "github.com/KiraCore/sekai/x/collectives/types"
 	tokenstypes "github.com/KiraCore/sekai/x/tokens/types"
 	"fmt"
 	"strings"
@@ -393,6 +396,120 @@ func c06StakeCaps(r *Rec) {
 		r.Case(label, submitted >= 2)
 		if !halted && total.GT(sdk.OneDec()) {
 			r.Fail("C06/stake-caps/registry-above-100-percent", fmt.Sprintf("%s: the stake caps on record add up to %s: the next mint of a staking token fails and the distributor's BeginBlocker panics", label, total), nil)
+		}
+	}
+}
+
+// c06OrphanedCollectiveProposal: a proposal about a collective (update / send-donation / remove: its quorum and voting
+// period come from the collective) is still being voted on when the collective disappears - its last contributor
+// withdraws and the collectives EndBlocker dissolves the under-bonded collective after the minimum bonding time. The gov
+// EndBlocker then has to finish the proposal (whatever its verdict) without crashing.
+func c06OrphanedCollectiveProposal(r *Rec) {
+	kinds := []string{"update", "send-donation", "remove"}
+	for ki, kind := range kinds {
+		if r.Tier == "quick" && (ki+int(r.Seed))%3 == 2 {
+			continue
+		}
+		label := "proposal outlives its collective (" + kind + ")"
+		r.Mark(label)
+		w := NewWorld(WorldOpts{NAcc: 6, NVal: 3, SudoAccs: []int{5}})
+		owner := w.addrs[4]
+		votePeriod, enact := uint64(5*86400), uint64(3000)
+		var pid uint64
+		setupErr := ""
+		step := func(what string, dt time.Duration, mid func(ctx sdk.Context)) bool {
+			br := w.Block(nil, BlockOpts{Dt: dt, Mid: mid})
+			if br.Panicked != nil {
+				if key, whatK := c06Classify(c06Site(br.Panicked, br.Stack)); key != "" {
+					r.Known(key, whatK+fmt.Sprintf(" [%s, %s: panic in %s]", label, what, br.Phase))
+				} else {
+					r.Fail("C06/collectives/orphaned-proposal-halts", fmt.Sprintf("%s: block %d (%s) panicked in %s: %.200v", label, w.height, what, br.Phase, br.Panicked), nil)
+				}
+				return false
+			}
+			w.ApplyUpdates(br.Updates)
+			return true
+		}
+		ok := step("create, submit, vote", 6*time.Second, func(ctx sdk.Context) {
+			np := w.app.CustomGovKeeper.GetNetworkProperties(ctx)
+			np.MinCollectiveBond = 1
+			if err := w.app.CustomGovKeeper.SetNetworkProperties(ctx, np); err != nil {
+				setupErr = err.Error()
+				return
+			}
+			w.app.SpendingKeeper.SetSpendingPool(ctx, spendingtypes.SpendingPool{Name: "sp1", Balances: []sdk.Coin{}})
+			if _, has := w.app.CustomGovKeeper.GetNetworkActorByAddress(ctx, owner); !has {
+				w.app.CustomGovKeeper.SaveNetworkActor(ctx, govtypes.NewDefaultActor(owner)) // voters need an (active) actor record
+			}
+			owners := colltypes.OwnersWhitelist{Accounts: []string{owner.String()}}
+			pools := []colltypes.WeightedSpendingPool{{Name: "sp1", Weight: sdk.NewDec(1)}}
+			cms := collectiveskeeper.NewMsgServerImpl(w.app.CollectivesKeeper)
+			err := withCache(ctx, func(c sdk.Context) error {
+				_, e := cms.CreateCollective(sdk.WrapSDKContext(c), colltypes.NewMsgCreateCollective(owner, "orph", "d", sdk.NewCoins(sdk.NewInt64Coin("ukex", 1_000_000)),
+					colltypes.DepositWhitelist{Any: true}, owners, pools, 0, 86400, 0, sdk.NewDecWithPrec(30, 2), votePeriod, enact))
+				return e
+			})
+			if err != nil {
+				setupErr = err.Error()
+				return
+			}
+			var content govtypes.Content
+			switch kind {
+			case "update":
+				content = colltypes.NewProposalCollectiveUpdate("orph", "new", colltypes.CollectiveActive, colltypes.DepositWhitelist{Any: true}, owners, pools, 0, 86400, 0, sdk.NewDecWithPrec(30, 2), votePeriod, enact)
+			case "send-donation":
+				content = colltypes.NewProposalCollectiveSendDonation("orph", w.addrs[3].String(), sdk.NewCoins(sdk.NewInt64Coin("ukex", 1)))
+			default:
+				content = colltypes.NewProposalCollectiveRemove("orph")
+			}
+			gms := govkeeper.NewMsgServerImpl(w.app.CustomGovKeeper)
+			m, err := govtypes.NewMsgSubmitProposal(owner, "t", "d", content)
+			if err != nil {
+				setupErr = err.Error()
+				return
+			}
+			err = withCache(ctx, func(c sdk.Context) error {
+				res, e := gms.SubmitProposal(sdk.WrapSDKContext(c), m)
+				if e == nil {
+					pid = res.ProposalID
+					if r.Rng.Intn(2) == 0 {
+						_, e = gms.VoteProposal(sdk.WrapSDKContext(c), govtypes.NewMsgVoteProposal(pid, owner, govtypes.OptionYes, sdk.ZeroDec()))
+					}
+				}
+				return e
+			})
+			if err != nil {
+				setupErr = err.Error()
+			}
+		})
+		if !ok {
+			continue
+		}
+		if setupErr != "" || pid == 0 {
+			r.Count("orphaned-proposal:setup-failed")
+			r.Notes = append(r.Notes, label+": set-up failed: "+setupErr)
+			continue
+		}
+		ok = step("the only contributor withdraws", time.Hour, func(ctx sdk.Context) {
+			cms := collectiveskeeper.NewMsgServerImpl(w.app.CollectivesKeeper)
+			withCache(ctx, func(c sdk.Context) error {
+				_, e := cms.WithdrawCollective(sdk.WrapSDKContext(c), colltypes.NewMsgWithdrawCollective(owner, "orph"))
+				return e
+			})
+		})
+		np := w.app.CustomGovKeeper.GetNetworkProperties(w.ReadCtx())
+		ok = ok && step("minimum bonding time passes: the under-bonded collective is dissolved", time.Duration(np.MinCollectiveBondingTime+3600)*time.Second, nil)
+		gone := w.app.CollectivesKeeper.GetCollective(w.ReadCtx(), "orph").Name == ""
+		r.Count(fmt.Sprintf("orphaned-proposal:%s:collective-gone=%v", kind, gone))
+		ok = ok && step("voting period of the proposal ends", time.Duration(votePeriod)*time.Second, nil)
+		ok = ok && step("next block", 6*time.Second, nil)
+		ok = ok && step("enactment time passes", time.Duration(enact+10)*time.Second, nil)
+		ok = ok && step("next block", 6*time.Second, nil)
+		r.Case(label, gone)
+		if ok {
+			if p, found := w.app.CustomGovKeeper.GetProposal(w.ReadCtx(), pid); found && p.Result == govtypes.Pending {
+				r.Fail("C06/collectives/orphaned-proposal-never-finishes", fmt.Sprintf("%s: proposal %d is still pending after its voting period and enactment time", label, pid), nil)
+			}
 		}
 	}
 }
